@@ -46,6 +46,9 @@ def RangeAgg.isUnwrap (r : RangeAgg) : Bool := match r.kind with | .unwrap _ _ =
 
 def VecAgg.grouped (a : VecAgg) : Bool := a.byPrefix.isSome || a.bySuffix.isSome
 
+/-- `planAgg`: the grouping of a vector aggregation; none written = `by ()`, the empty label set -/
+def aggGrouping (a : VecAgg) : Grouping := (chosenGrouping a.byPrefix a.bySuffix).getD ⟨true, []⟩
+
 def MetricQuery.agg? : MetricQuery → Option VecAgg
   | .agg a => some a
   | .topk t => (match t.inner with | .agg a => some a | .range _ => none)
@@ -66,7 +69,7 @@ def takesShortcut (q : MetricQuery) : Bool :=
 
 /-- `matrixFunctionsLabelsIDX != -1` after analysis (resp. after `planMetrics15Shortcut`) -/
 def matrixLabels (q : MetricQuery) : Bool :=
-  (q.rangeAgg.isUnwrap && !takesShortcut q) || (match q.agg? with | some a => a.grouped | none => false)
+  (q.rangeAgg.isUnwrap && !takesShortcut q) || q.agg?.isSome
 
 /-! ### the planned steps (`matrixFunctionsOrder`, resp. the calls of `planMetrics15Shortcut`) -/
 inductive Step
@@ -89,7 +92,7 @@ def orderRange (r : RangeAgg) : List Step :=
    | .lra fn => [Step.lra fn r.durNs]) ++ cmpStep r.cmp
 
 def orderAgg (a : VecAgg) : List Step :=
-  orderRange a.inner ++ [Step.agg a.fn (chosenGrouping a.byPrefix a.bySuffix)] ++ cmpStep a.cmp
+  orderRange a.inner ++ [Step.agg a.fn (some (aggGrouping a))] ++ cmpStep a.cmp
 
 /-- `getFunctionOrder` -/
 def functionOrder : MetricQuery → List Step
@@ -105,7 +108,7 @@ def shortcutRange (r : RangeAgg) : List Step :=
    | .unwrap fn _ => [Step.unwrapFn fn r.durNs (chosenGrouping r.byPrefix r.bySuffix)]) ++ cmpStep r.cmp
 
 def shortcutAgg (a : VecAgg) : List Step :=
-  shortcutRange a.inner ++ [Step.agg a.fn (chosenGrouping a.byPrefix a.bySuffix)] ++ cmpStep a.cmp
+  shortcutRange a.inner ++ [Step.agg a.fn (some (aggGrouping a))] ++ cmpStep a.cmp
 
 /-- the calls `planMetrics15Shortcut` makes, in order -/
 def shortcutOrder : MetricQuery → List Step
